@@ -167,7 +167,16 @@ def run(ctx, eng):
     ctx.ob('ORD.cleanup', f4.qual, 'closed streams leave the live table',
            ok and closed_cond, 'streams that are closed are popped from '
            '`streams` and remembered in `_closed_streams`', node=f4.node)
-    # ---- (5) CONTINUATION backlog
+    check_backlog(ctx, eng)
+    check_header_list_cap(ctx, eng)
+    ctx.assume('actual memory is not measured; reserved (pushed) streams '
+               'are not counted by any limit (outside the listed '
+               'mechanisms)')
+
+
+def check_backlog(ctx, eng):
+    """(5) CONTINUATION backlog, frame-length guard, bounded recursion."""
+    m = eng.m
     f5 = m.func(FB + '_update_header_buffer')
     paths = eng.I.run(f5)
     backlog = m.try_fold(ast.Name(id='CONTINUATION_BACKLOG', ctx=ast.Load()),
@@ -253,7 +262,11 @@ def run(ctx, eng):
            ok, '__next__ recurses only when _update_header_buffer returned '
            'None, i.e. at most CONTINUATION_BACKLOG + 1 times per call',
            node=f6.node)
-    # ---- (6) header-list cap
+
+
+def check_header_list_cap(ctx, eng):
+    """(6) header-list cap"""
+    m = eng.m
     fi = m.func(H + '__init__')
     dflt = m.try_fold(ast.Attribute(value=ast.Name(id='self',
                                                    ctx=ast.Load()),
@@ -311,6 +324,3 @@ def run(ctx, eng):
            ok and class_code(m, 'DenialOfServiceError') ==
            'ENHANCE_YOUR_CALM', 'OversizedHeaderListError becomes '
            'DenialOfServiceError (ENHANCE_YOUR_CALM)', node=f9.node)
-    ctx.assume('actual memory is not measured; reserved (pushed) streams '
-               'are not counted by any limit (outside the listed '
-               'mechanisms)')
